@@ -17,93 +17,14 @@ _prev_is_sym = symi.is_sym
 symi.is_sym = lambda v: _prev_is_sym(v) or isinstance(v, SymReal)
 symstr.is_sym2 = symi.is_sym
 
-# ---------- character class tests
-WS = [9, 10, 11, 12, 13, 32, 28, 29, 30, 31, 0x85, 0xA0]   # str.isspace subset (ASCII + a few); bound: others excluded by pre
-def in_class(eng, c, items):
-    """items: list of (op, arg) from sre_parse IN node. returns python bool via forking."""
-    neg = False; res = False
-    conds = []
-    for op, av in items:
-        op = str(op)
-        if op == 'NEGATE': neg = True
-        elif op == 'LITERAL': conds.append(ceq(c, av))
-        elif op == 'RANGE': conds.append((av[0] <= c <= av[1]) if isinstance(c, int) else z3.And(c >= av[0], c <= av[1]))
-        elif op == 'CATEGORY':
-            cat = str(av)
-            if cat == 'CATEGORY_DIGIT': conds.append((48 <= c <= 57) if isinstance(c, int) else z3.And(c >= 48, c <= 57))   # ASCII bound
-            elif cat == 'CATEGORY_SPACE': conds.append(z3.Or(*[ceq(c, w) if not isinstance(ceq(c, w), bool) else z3.BoolVal(ceq(c, w)) for w in WS]))
-            else: raise Unsupported('regex category %s' % cat)
-        else: raise Unsupported('regex class item %s' % op)
-    zc = [z3.BoolVal(x) if isinstance(x, bool) else x for x in conds]
-    r = eng.branch(z3.Or(*zc)) if zc else False
-    return (not r) if neg else r
+WS = [9, 10, 11, 12, 13, 28, 29, 30, 31, 32, 0x85, 0xA0]   # str.isspace / int() / float() white space (subset; others excluded by bounds)
+from . import regex as _regex
 
-def match_here(eng, items, idx, s, pos, k, flags):
-    """Backtracking matcher. k(pos) -> result or None (continuation)."""
-    if idx == len(items): return k(pos)
-    op, av = items[idx]; ops = str(op)
-    nxt = lambda p: match_here(eng, items, idx + 1, s, p, k, flags)
-    def one(test):
-        if pos >= len(s.cs): return None
-        return nxt(pos + 1) if test(s.cs[pos]) else None
-    if ops == 'LITERAL':
-        def t(c):
-            if flags & re.IGNORECASE and chr(av).isalpha():
-                alts = {ord(chr(av).lower()), ord(chr(av).upper())}
-                zc = [z3.BoolVal(ceq(c, a)) if isinstance(ceq(c, a), bool) else ceq(c, a) for a in alts]
-                return eng.branch(z3.Or(*zc))
-            r = ceq(c, av); return r if isinstance(r, bool) else eng.branch(r)
-        return one(t)
-    if ops == 'NOT_LITERAL':
-        def t(c):
-            r = ceq(c, av); return not (r if isinstance(r, bool) else eng.branch(r))
-        return one(t)
-    if ops == 'ANY':
-        def t(c):
-            r = ceq(c, 10); return not (r if isinstance(r, bool) else eng.branch(r))
-        return one(t)
-    if ops == 'IN': return one(lambda c: in_class(eng, c, av))
-    if ops == 'AT':
-        a = str(av)
-        if a == 'AT_BEGINNING': return nxt(pos) if pos == 0 else None
-        if a == 'AT_END':
-            if pos == len(s.cs): return nxt(pos)
-            if pos == len(s.cs) - 1:
-                r = ceq(s.cs[pos], 10)
-                if (r if isinstance(r, bool) else eng.branch(r)): return nxt(pos)
-            return None
-        raise Unsupported('regex AT %s' % a)
-    if ops == 'SUBPATTERN':
-        sub = list(av[3])
-        return match_here(eng, sub, 0, s, pos, nxt, flags)
-    if ops == 'BRANCH':
-        for alt in av[1]:
-            r = match_here(eng, list(alt), 0, s, pos, nxt, flags)
-            if r is not None: return r
-        return None
-    if ops in ('MAX_REPEAT', 'MIN_REPEAT'):
-        lo, hi, sub = av; sub = list(sub); hi = 10**9 if str(hi) == 'MAXREPEAT' else hi
-        def rep(count, p):
-            if ops == 'MAX_REPEAT':
-                if count < hi:
-                    r = match_here(eng, sub, 0, s, p, lambda p2: rep(count + 1, p2) if p2 > p else None, flags)
-                    if r is not None: return r
-                return nxt(p) if count >= lo else None
-            else:
-                if count >= lo:
-                    r = nxt(p)
-                    if r is not None: return r
-                if count < hi:
-                    return match_here(eng, sub, 0, s, p, lambda p2: rep(count + 1, p2) if p2 > p else None, flags)
-                return None
-        return rep(0, pos)
-    raise Unsupported('regex op %s' % ops)
 
 def pattern_match(eng, pat, s, full=False):
-    tree = list(sre_parse.parse(pat.pattern, pat.flags))
-    end = (lambda p: p if (not full or p == len(s.cs)) else None)
-    r = match_here(eng, tree, 0, s, 0, end, pat.flags)
-    return r   # end position or None (groups not needed here)
+    m = _regex.run(eng, pat, s, 'fullmatch' if full else 'match')
+    return None if m is None else m.end_
+
 
 # ---------- int()/float() contracts on code-point lists
 def strip_ws(eng, s):
@@ -200,9 +121,12 @@ def call_model3(self, f, args, kwargs):
         t = args[1]; return issubclass(float, t) if isinstance(t, type) else any(issubclass(float, x) for x in t)
     # bound method of compiled pattern: .match(s)
     if isinstance(f, types.BuiltinMethodType) and isinstance(getattr(f, '__self__', None), re.Pattern):
-        if f.__name__ in ('match', 'fullmatch') and isinstance(args[0], SymStr):
-            r = pattern_match(self, f.__self__, args[0], full=(f.__name__ == 'fullmatch'))
-            return None if r is None else ('<match>', r)
+        if f.__name__ in ('match', 'fullmatch', 'search') and isinstance(args[0], SymStr):
+            return _regex.run(self, f.__self__, args[0], f.__name__, *args[1:2])
+        raise Unsupported('re.Pattern.%s on a symbolic string' % f.__name__)
+    if f in (re.match, re.fullmatch, re.search) and isinstance(args[1], SymStr):
+        pat = re.compile(args[0], args[2] if len(args) > 2 else kwargs.get('flags', 0))
+        return _regex.run(self, pat, args[1], f.__name__)
     # int.__new__(cls, x): typed integer construction
     if f is int.__new__ or getattr(f, '__name__', '') == '__new__':
         cls = args[0]; rest = args[1:]
